@@ -52,9 +52,11 @@ Print Assumptions C13_history_partial.
    allocation without challenge pool, update_allocation_request settles the used part of the period
    before extending (payCostForDtuForEnterpriseAllocation), finalize / cancel run finishAllocation's
    enterprise branch (offers released, cost paid, Allocated released), commit_connection and
-   free_allocation_request are refused; every other configuration runs the standard operations. *)
+   free_allocation_request are refused; every other configuration runs the standard operations.  A history is a list of
+   transactions and of changes of storagesc.time_unit ([EvTimeUnit]: the effect of update_settings /
+   commit_settings_changes on the stored configuration, recorded from the run). *)
 Theorem C13_standard_world :
-  forall c ts s, cf_ent c = false -> ss_run_w c s ts = ss_run c s ts.
+  forall c ts s, cf_ent c = false -> ss_run_w c s (map EvTxn ts) = ss_run c s ts.
 Proof. exact ss_run_w_std. Qed.
 Print Assumptions C13_standard_world.
 
@@ -66,7 +68,7 @@ Proof. exact ss_apply_w_c13. Qed.
 Print Assumptions C13_step_world_partial.
 
 Theorem C13_history_world_partial :
-  forall c ts s, st_c13 s -> ss_run_ok13_w c s ts -> st_c13 (fst (ss_run_w c s ts)).
+  forall evs c s, st_c13 s -> ss_run_ok13_w c s evs -> st_c13 (fst (ss_run_w c s evs)).
 Proof. exact ss_run_w_c13. Qed.
 Print Assumptions C13_history_world_partial.
 
